@@ -200,7 +200,7 @@ structure TreeHyp (st : StructTable) (F : Nat) (nm : List String → String) (O 
   store : ∀ n ∈ flattenTList dims ts, StoreAtNode nm O ρ n
   ok : treeOkPList above ts = true
   idx : idxOkTList st F ρ f0 ts = true
-  loc : ∀ o ∈ subROccList (dims.map (·.1)) ts, IdxLocal ρ o.1 o.2
+  loc : ∀ o ∈ subROccList (dims.map (·.1)) ts, IdxLocal ρ o.1 o.2.2
 
 section treeHyp
 variable {st : StructTable} {F : Nat} {nm : List String → String} {O : Oracle} {ρ : Store}
@@ -263,7 +263,7 @@ theorem TreeHyp.subR {c : String} {m : Bool} {path : List String} {cins : RBMap}
     cases this with
     | inl h => exact absurd hc h
     | inr h => exact h
-  · exact h4 (c, dims.map (·.1)) (by simp [subROccList, subROcc])
+  · exact h4 (c, path, dims.map (·.1)) (by simp [subROccList, subROcc])
   · intro ix hix
     refine ⟨?_, hch, hidx ix hix, ?_⟩
     · intro n hn
@@ -762,5 +762,233 @@ theorem refine_callsR (P : Program) (nm : List String → String) (O : Oracle) (
 
 
 end callsR
+
+/-! ## the call graph -/
+
+section graphR
+variable (P : Program) (hw : WellTypedE P) (F : Nat) (hF : NarrowFix P.table F)
+  (nm : List String → String) (O : Oracle) (hO : OracleClean O) (ρ : Store) (hρ : StoreExt ρ)
+include hw hF hO hρ
+
+theorem refine_callableR :
+    ∀ (fuel : Nat) (callee : String) (path : List String) (forks : List (String × Idx))
+      (dims : List (String × List Idx)) (args : J) (cins : RBMap),
+      ∀ f0 : ForkAssign, dims.map (·.1) = forks.map (·.1) →
+      ArgsRelC P.table F ρ forks (P.insOf callee) (J.erase args) cins → Agree forks f0 →
+      TreeHyp P.table F nm O ρ (forks.map (·.1)) dims f0 (staticCallableT P nm fuel callee path cins).2 →
+      GoodE P.table F ρ forks callee (runCallable P O F fuel callee path forks args)
+        (staticCallableT P nm fuel callee path cins) := by
+  intro fuel
+  induction fuel with
+  | zero =>
+    intro callee path forks dims args cins _ _ _ _ _
+    simp only [runCallable, staticCallableT, GoodE, evalRT, instsTList, J.erase, List.map_nil]
+    exact ⟨fun _ _ => trivial, HasTyR_null _ _, fun _ _ => trivial⟩
+  | succ fuel ih =>
+    intro callee path forks dims args cins f0 hal hargs hf0 hT
+    simp only [runCallable, staticCallableT] at hT ⊢
+    cases hl : P.callables.lookup callee with
+    | none =>
+      simp only [GoodE, evalRT, instsTList, J.erase, List.map_nil]
+      exact ⟨fun _ _ => trivial, HasTyR_null _ _, fun _ _ => trivial⟩
+    | some cb =>
+      cases cb with
+      | stage sins souts =>
+        simp only [hl] at hT
+        have hs := hT.store { path := path, callee := callee, inputs := cins, forks := dims }
+          (by simp [flattenTList, flattenT])
+        refine ⟨?_, ?_, ?_⟩
+        · intro f hf
+          simp only [evalRT, projPath]
+          have := hs f
+          simp only [key_of_agree f dims forks hal hf] at this
+          rw [this, narrow_erase]
+          congr 1
+          cases ho : O ⟨path, forks⟩ with
+          | none => rfl
+          | some v => exact Proofs.Approx.erase_clean _ (hO _ _ ho)
+        · simp only [HasTyR, pathTy]
+          exact Sub.refl _
+        · intro f hf
+          obtain ⟨g, hc, ha, _⟩ := hargs
+          simp only [instsTList, instsT, List.append_nil, runtimeArgs, hc, List.map_map,
+            List.map_cons, List.map_nil, eraseInst, ha f hf, List.cons.injEq, and_true]
+          rfl
+      | pipeline pins outs calls ret =>
+        simp only [hl] at hT
+        have hins : P.insOf callee = pins := by simp [Program.insOf, hl, Callable.ins]
+        rw [hins] at hargs
+        obtain ⟨hcalls, hret⟩ := hw.pipelines callee pins outs calls ret hl
+        have htab := hw.outsOf callee _ hl
+        simp only [Callable.outs] at htab
+        have hn := hw.structs _ _ htab
+        have hinit := envRel_initC P.table F ρ forks pins (J.erase args) cins hargs
+        have hinit' : EnvRel P.table F ρ (Agree forks) (eraseEnv ⟨pins, args, []⟩) cins [] := hinit
+        have hcs := refine_callsR P.table hw.structs F hF ρ hρ P nm O (runCallable P O F fuel)
+          (staticCallableT P nm fuel) path forks dims cins (selfTyOf pins) hal ih
+          calls ⟨pins, args, []⟩ [] [] [] hinit' rfl (by simpa [typesOf] using hcalls)
+          (fun _ _ => by simp [instsTList]) f0 hf0 hT
+        obtain ⟨hrel, hself, htypes, hinst⟩ := hcs
+        simp only
+        generalize evalCalls P.table F P.insOf (runCallable P O F fuel) path forks calls ⟨pins, args, []⟩ [] = R
+          at hrel hself htypes hinst
+        generalize staticCallsT P.table P.insOf (staticCallableT P nm fuel) path cins calls [] [] = S
+          at hrel hinst
+        have hsT : (eraseEnv R.1).selfTy = selfTyOf pins := by rw [selfTy_eraseEnv, selfTy_eq, hself]
+        have hcT : (eraseEnv R.1).callTy = callTyOf (callTypesM calls) := by
+          rw [callTy_eraseEnv, callTy_typesOf, htypes]; simp [typesOf]
+        have key : ∀ p ∈ outs,
+            (∀ f, Agree forks f → narrow P.table F p.ty (J.erase (match ret.lookup p.name with
+              | some e => eval P.table R.1 e
+              | none => .null))
+              = evalRT P.table F ρ f p.ty (match ret.lookup p.name with
+                | some e => filterT P.table p.ty (resolveRefs cins S.1 e)
+                | none => .lit .null)) ∧
+            HasTyR P.table p.ty (match ret.lookup p.name with
+                | some e => filterT P.table p.ty (resolveRefs cins S.1 e)
+                | none => .lit .null) := by
+          intro p hp
+          cases he : ret.lookup p.name with
+          | none => exact ⟨fun f _ => by simp [narrow_null hF, evalRT, J.erase], HasTyR_null _ _⟩
+          | some e =>
+            obtain ⟨hcl, hty⟩ := hret p hp e he
+            rw [← hsT, ← hcT] at hty
+            simp only
+            rw [← eval_eraseEnv P.table R.1 e hcl]
+            exact ⟨fun f hf => (eval_resolveExpT P.table hw.structs F hF ρ _ _ cins S.1 hrel f hf e p.ty hty).1,
+              (eval_resolveExpT P.table hw.structs F hF ρ _ _ cins S.1 hrel f0 hf0 e p.ty hty).2⟩
+        have c2 : ((0 : Nat) == 0 && (0 : Nat) != 0) = false := by decide
+        refine ⟨?_, ?_, hinst⟩
+        · intro f hf
+          simp only [evalRT, c2, Bool.false_eq_true, if_false, htab, J.obj.injEq, erase_obj, List.map_map]
+          apply List.map_congr_left
+          intro p hp
+          simp only [Function.comp_apply, Prod.mk.injEq, true_and]
+          rw [lookup_evalRTMembers, lookup_map_find, find_name_of_nodup outs hn p hp,
+            memberTy_find outs p.name p (find_name_of_nodup outs hn p hp), narrow_erase]
+          exact (key p hp).1 f hf
+        · simp only [HasTyR]
+          refine ⟨trivial, trivial, outs, htab, ?_, ?_⟩
+          · apply HasTyRMembers_of_mem
+            intro k e hke _
+            simp only [List.mem_map, Prod.mk.injEq] at hke
+            obtain ⟨p, hp, hk, he⟩ := hke
+            subst hk; subst he
+            rw [memberTy_find outs p.name p (find_name_of_nodup outs hn p hp)]
+            exact (key p hp).2
+          · intro p hp
+            rw [lookup_map_find, find_name_of_nodup outs hn p hp]
+            rfl
+
+/-- THE REFINEMENT with run-time `disabled` controls and array-mode map calls of run-time size, modulo
+the erasure `dnull ↦ null`: outputs and every stage instance's arguments -/
+theorem twoPhaseR_eq_den_F
+    (hT : TreeHyp P.table F nm O ρ [] [] [] (staticProgramT P nm).2) :
+    (J.erase (runCallable P O F P.fuel P.top.callee [P.top.id] []
+        (mkArgs P.table F (argVals P.table ⟨[], .null, []⟩ (P.insOf P.top.callee) P.top) none)).1,
+     (runCallable P O F P.fuel P.top.callee [P.top.id] []
+        (mkArgs P.table F (argVals P.table ⟨[], .null, []⟩ (P.insOf P.top.callee) P.top) none)).2.map eraseInst)
+      = ((evalRT P.table F ρ [] ⟨P.top.callee, 0, 0⟩ (staticProgramT P nm).1.exp),
+         instsTList P.table F ρ [] [] (staticProgramT P nm).2) := by
+  have henv : EnvRel P.table F ρ (Agree []) (eraseEnv ⟨[], .null, []⟩) [] [] := by
+    refine ⟨?_, ?_, ?_⟩
+    · intro p; simp [eraseEnv, Env.selfTy, σexp, HasTyR_null, evalRT, J.field, J.erase]
+    · intro c; simp [eraseEnv, Env.callTy, Env.callVal, σexp, HasTyR_null, evalRT]
+    · intro c; rfl
+  have htop : CallOk P.table P.insOf (Env.selfTy (eraseEnv ⟨[], .null, []⟩)) (Env.callTy (eraseEnv ⟨[], .null, []⟩))
+      P.top := by
+    rw [selfTy_eraseEnv, callTy_eraseEnv, selfTy_eq, callTy_typesOf]
+    exact hw.top.1
+  have hargs := args_stepC P.table hw.structs F hF ρ P.insOf [] _ [] [] henv P.top htop hw.top.2.1
+    [] (Agree.nil [])
+  rw [← mkArgs_erase_none P.table F _ _ P.top hw.top.2.2] at hargs
+  have := refine_callableR P hw F hF nm O hO ρ hρ P.fuel P.top.callee [P.top.id] [] [] _ _ [] rfl hargs
+    (Agree.nil []) hT
+  obtain ⟨g1, _, g3⟩ := this
+  exact Prod.ext (g1 [] (Agree.nil [])) (g3 [] (Agree.nil []))
+
+end graphR
+
+/-! ## the store of a run -/
+
+theorem storeOfRun_ext (nm : List String → String) (nodes : List SNode)
+    (occ : List (String × List String × List String)) (O : Oracle) (I : IdxRec) :
+    StoreExt (storeOfRun nm nodes occ O I) := by
+  intro node f g h
+  refine ⟨(storeOfNodes_ext nm nodes O node f g h).1, ?_⟩
+  intro c
+  simp only [storeOfRun]
+  cases occ.lookup c with
+  | none => rfl
+  | some pd =>
+    simp only
+    congr 2
+    apply List.map_congr_left
+    intro d _
+    rw [h d]
+
+theorem storeOfRun_ok (nm : List String → String) (nodes : List SNode)
+    (occ : List (String × List String × List String)) (O : Oracle) (I : IdxRec)
+    (hn : (nodes.map fun n => nm n.path).Nodup) :
+    ∀ n ∈ nodes, StoreAtNode nm O (storeOfRun nm nodes occ O I) n :=
+  fun n hmem f => storeOfNodes_ok nm nodes O hn n hmem f
+
+theorem lookup_of_nodup_keys {β : Type} : ∀ (l : List (String × β)) (k : String) (v : β),
+    (l.map (·.1)).Nodup → (k, v) ∈ l → l.lookup k = some v
+  | [], _, _, _, h => by simp at h
+  | (k0, v0) :: l, k, v, hn, h => by
+    simp only [List.map_cons, List.nodup_cons] at hn
+    simp only [List.mem_cons, Prod.mk.injEq] at h
+    simp only [List.lookup_cons]
+    cases h with
+    | inl h => simp [h.1, h.2]
+    | inr h =>
+      have hne : (k == k0) = false := by
+        apply beq_false_of_ne
+        intro e
+        subst e
+        exact hn.1 (List.mem_map.mpr ⟨(k, v), h, rfl⟩)
+      simp only [hne]
+      exact lookup_of_nodup_keys l k v hn.2 h
+
+theorem storeOfRun_local (nm : List String → String) (nodes : List SNode)
+    (occ : List (String × List String × List String)) (O : Oracle) (I : IdxRec)
+    (hn : (occ.map (·.1)).Nodup) :
+    ∀ o ∈ occ, IdxLocal (storeOfRun nm nodes occ O I) o.1 o.2.2 := by
+  intro o ho f g h
+  obtain ⟨c, path, dims⟩ := o
+  simp only [storeOfRun, lookup_of_nodup_keys occ c (path, dims) hn ho]
+  congr 2
+  apply List.map_congr_left
+  intro d hd
+  rw [h d hd]
+
+mutual
+theorem treeOk_implies_P1 (st : StructTable) (nf : Nat) (ρ : Store) :
+    ∀ (t : STree) (above : List String) (f : ForkAssign), treeOk above t = true →
+      treeOkP above t = true ∧ idxOkT st nf ρ f t = true ∧ ∀ dims, subROcc dims t = []
+  | .node _, _, _, _ => by simp [treeOkP, idxOkT, subROcc]
+  | .sub c m ixs ok ch, above, f, h => by
+    simp only [treeOk, Bool.and_eq_true] at h
+    simp only [treeOkP, idxOkT, subROcc, Bool.and_eq_true, List.all_eq_true]
+    exact ⟨⟨h.1, (treeOk_implies_P st nf ρ ch _ f h.2).1⟩,
+      fun ix _ => (treeOk_implies_P st nf ρ ch _ _ h.2).2.1,
+      fun dims => (treeOk_implies_P st nf ρ ch _ f h.2).2.2 _⟩
+  | .guard d ch, above, f, h => by
+    simp only [treeOk] at h
+    simp only [treeOkP, idxOkT, subROcc]
+    exact treeOk_implies_P st nf ρ ch above f h
+  | .subR _ _ _ _ _ _, _, _, h => by simp [treeOk] at h
+theorem treeOk_implies_P (st : StructTable) (nf : Nat) (ρ : Store) :
+    ∀ (ts : List STree) (above : List String) (f : ForkAssign), treeOkList above ts = true →
+      treeOkPList above ts = true ∧ idxOkTList st nf ρ f ts = true ∧ ∀ dims, subROccList dims ts = []
+  | [], _, _, _ => by simp [treeOkPList, idxOkTList, subROccList]
+  | t :: ts, above, f, h => by
+    simp only [treeOkList, Bool.and_eq_true] at h
+    have h1 := treeOk_implies_P1 st nf ρ t above f h.1
+    have h2 := treeOk_implies_P st nf ρ ts above f h.2
+    simp only [treeOkPList, idxOkTList, subROccList, Bool.and_eq_true]
+    exact ⟨⟨h1.1, h2.1⟩, ⟨h1.2.1, h2.2.1⟩, fun dims => by rw [h1.2.2, h2.2.2]; rfl⟩
+end
 
 end Proofs.ResolverStatic
